@@ -230,8 +230,14 @@ def run_packed(ctx, prop, progs, rng, profile, thorough=False):
         except Exception:
             continue
         cases += variants(pk, rng, thorough)
+    # decompression bombs: a few kilobytes that inflate to many megabytes, against a small capacity — must be refused BEFORE
+    # they are inflated (the peak-allocation bound below is derived from the capacity, not from the input)
+    for name, blob in (("zip-bomb-zeros-16MiB", b"\x00" * (16 << 20)), ("zip-bomb-array-headers", b"\xdd\xff\xff\xff\xff" * (1 << 20)),
+                       ("zip-bomb-valid-prefix", (valid[0] if valid else b"\xc3\x90\x00\x90\x90\x90") + b"\x00" * (8 << 20))):
+        for mx in (2, 64):
+            cases.append((name, mx, blob, "err"))
     impl = ctx.impl(["cmpdec %d %s" % (mx, deflate(b).hex() or "-") for (_, mx, b, _) in cases], profile=profile)
-    mod = ctx.model(["unpackc %d %s" % (mx, b.hex() or "-") for (_, mx, b, _) in cases])
+    mod = ctx.model(["unpackc %d %s" % (mx, (b if len(b) <= (1 << 20) else b[:857 * mx + 31]).hex() or "-") for (_, mx, b, _) in cases])
     bad_model, bad_impl = [], []
     for (name, mx, b, exp), io, mo in zip(cases, impl, mod):
         n += 1
